@@ -20,6 +20,7 @@ type propCfg struct {
 	// probes that must be non-zero for a run of that tier to count as a pass
 	RequiredProbes []string
 	FaultKinds     []string
+	Synctest       bool // also run the go1.26.8 testing/synctest cross-check engine
 }
 
 var realStub = map[string]string{
@@ -31,7 +32,7 @@ var realStub = map[string]string{
 var props = map[string]*propCfg{
 	"C09": {
 		ID: "C09", Scenario: "shared", Race: true,
-		QuickRuns: 48000, ThorRuns: 1200000, QuickChunk: 250, ThorChunk: 1000, ChunkTimeoS: 300,
+		QuickRuns: 48000, ThorRuns: 250000, QuickChunk: 250, ThorChunk: 1000, ChunkTimeoS: 300,
 		Rule: "one evaluation = one simulated run: a seed-derived pool of formulas parsed once, 2-8 task goroutines each with its own runner, data map and op script (EVAL/FIELDS/PARSE/FORMAT/POOL_FLUSH) executed under the token scheduler with a seed-chosen strategy, then the same scripts sequentially on re-parsed trees. A run is non-trivial when at least one context switch happened inside a library call; distinct = distinct (sequential outcome hash, schedule trace hash) pairs.",
 		Assumptions: []string{
 			"yield points are statement boundaries of package formula only; code inside decimal and the standard library runs atomically from the scheduler's point of view (the race detector still sees its memory accesses)",
@@ -91,7 +92,7 @@ var props = map[string]*propCfg{
 		FaultKinds:     []string{"host_error"},
 	},
 	"C19": {
-		ID: "C19", Scenario: "clock", Race: false,
+		ID: "C19", Scenario: "clock", Race: false, Synctest: true,
 		QuickRuns: 150000, ThorRuns: 2000000, QuickChunk: 500, ThorChunk: 5000, ChunkTimeoS: 600,
 		Rule: "one evaluation = one simulated run: a seed-chosen process zone, a simulated wall clock and 5-200 operations on one runner: now()/toDay() with the clock placed anywhere in years 1-9999 or just before local midnight and ticking (0 .. 36 h, sometimes backwards) after every read inside the call; date(y,m,d) with months and days from -50 to +60; the eight field extractors, addDate with shifts up to +-400 years / +-5000 months and days, useTimezone against a simulated zone database with intact, missing, empty, torn and garbage files, timeFormat with numeric layouts, and date->extractor chains through locals. Oracles: wall-clock bracket of the call; independent days-from-civil arithmetic; the real time.LoadLocation under the same directory. Non-trivial: at least two operations; distinct = distinct hash of the operation list.",
 		Assumptions: []string{
